@@ -184,6 +184,29 @@ def r1_census(ctx, M):
             for ev in o.events:
                 if ev.get("fn") and ev["fn"] != fn:
                     expanded_in.setdefault(ev["fn"], set()).add(fn)
+    # a closure that no analysis expanded (e.g. one handed to a crate-local helper, which calls it): analyse its parent with the
+    # parent's helpers expanded, so that the closure's sites are censused under the conditions of the call
+    from .common import helper_inline as _hi
+    for fn in ordered:
+        b = ctx.facts.bodies[fn]
+        if b["kind"] != "closure" or fn in expanded_in:
+            continue
+        parent = fn.split("::{closure")[0]
+        if parent not in outs_of or parent in (spn, inner, parser):
+            continue
+        own = (ctx.facts.fns.get(parent, {}).get("impl_self") or "").split("<")[0]
+        try:
+            outs2 = ctx.px(parent, inline=_hi(ctx, own=(own,) if own else ()), key="helpers")
+        except Exception:
+            continue
+        seen2 = {ev["fn"] for o in outs2 for ev in o.events if ev.get("fn") and ev["fn"] != parent}
+        if fn in seen2:
+            nf1 = sum(1 for s in CEN.census(ctx, outs_of[parent], typelevel=tl).values() if s.failed)
+            nf2 = sum(1 for s in CEN.census(ctx, outs2, typelevel=tl).values() if s.failed and s.fn == parent)
+            if nf2 <= nf1:
+                outs_of[parent] = outs2
+                for f2 in seen2:
+                    expanded_in.setdefault(f2, set()).add(parent)
     # static callers (by resolved call edges) of every local function
     callers = {}
     for cb, ci, ct in ctx.facts.all_calls():
